@@ -17,10 +17,52 @@
 (*   walk   walk mapper: returns nothing, the observation is the set of    *)
 (*          (node, arguments) pairs visited                                *)
 (*   subst  substitution of variables by the trees in mk.map               *)
+(*   probe  combine mapper whose results are FOREIGN OBJECTS with their    *)
+(*          own equality protocol mk.eq (round 2): the object wraps the    *)
+(*          flat tuple of the (renamed) leaves in traversal order          *)
 (* Results are records [rk |-> "tree", e] / [rk |-> "set", s] /            *)
-(* [rk |-> "none"]; a number is the tree Const(number).                    *)
+(* [rk |-> "none"] / [rk |-> "obj", eq, e]; a number is the tree           *)
+(* Const(number).                                                          *)
+(*                                                                         *)
+(* Round 2: a mapper class may OVERRIDE handlers (mk.ov, a sequence of     *)
+(* method names).  Python's attribute lookup decides which body serves a   *)
+(* node: the node's class names ONE method (MethodOf), the instance's      *)
+(* class is searched first, then its bases.  An alias made in a base class *)
+(* (map_product = map_sum) is an attribute of the BASE and keeps pointing  *)
+(* at the base's function when a subclass overrides map_sum.  So an        *)
+(* override serves exactly the node kinds whose own method name it         *)
+(* carries.  An overriding handler here "marks": it returns its method     *)
+(* name applied to the mapped children (OwnBody), so that which body ran   *)
+(* is visible in the result.                                               *)
 (***************************************************************************)
 EXTENDS C05_Keys
+
+\* ---- dispatch: the handler name a node kind asks for (Expression.mapper_method,
+\* "map_" + the snake-cased class name; numbers / tuples / lists go through
+\* rec_fallback to map_constant / map_tuple / map_list)
+MethodOf(t) ==
+    CASE t = "Var" -> "map_variable"          [] t = "Const" -> "map_constant"
+      [] t = "Sum" -> "map_sum"               [] t = "Product" -> "map_product"
+      [] t = "BitOr" -> "map_bitwise_or"      [] t = "BitXor" -> "map_bitwise_xor"
+      [] t = "BitAnd" -> "map_bitwise_and"    [] t = "LogOr" -> "map_logical_or"
+      [] t = "LogAnd" -> "map_logical_and"    [] t = "Min" -> "map_min"
+      [] t = "Max" -> "map_max"               [] t = "Tup" -> "map_tuple"
+      [] t = "List" -> "map_list"             [] t = "Slice" -> "map_slice"
+      [] t = "Quotient" -> "map_quotient"     [] t = "FloorDiv" -> "map_floor_div"
+      [] t = "Remainder" -> "map_remainder"   [] t = "Power" -> "map_power"
+      [] t = "LShift" -> "map_left_shift"     [] t = "RShift" -> "map_right_shift"
+      [] t = "Sub" -> "map_subscript"         [] t = "BitNot" -> "map_bitwise_not"
+      [] t = "LogNot" -> "map_logical_not"    [] t = "Cmp" -> "map_comparison"
+      [] t = "If" -> "map_if"                 [] t = "Call" -> "map_call"
+      [] t = "CallKw" -> "map_call_with_kwargs" [] t = "Look" -> "map_lookup"
+      [] t = "CSE" -> "map_common_subexpression"
+      [] t = "Subst" -> "map_substitution"    [] t = "Deriv" -> "map_derivative"
+      [] OTHER -> "map_foreign"
+\* the handlers a mapper class overrides with a marking body
+Ov(mk) == IF "ov" \in DOMAIN mk THEN { mk.ov[i] : i \in 1..Len(mk.ov) } ELSE {}
+\* Python attribute lookup: "" = the base class's function serves the node, otherwise
+\* the name of the class's own (marking) function that does
+OwnBody(mk, e) == IF MethodOf(e.t) \in Ov(mk) THEN MethodOf(e.t) ELSE ""
 
 \* ---- suffix a renaming handler derives from the extra arguments ----------
 KindLetter(k) == CASE k = "int" -> "i" [] k = "bool" -> "b" [] k = "flt" -> "f"
@@ -38,6 +80,8 @@ TreeR(e) == [rk |-> "tree", e |-> e]
 SetR(s)  == [rk |-> "set", s |-> s]
 IntR(n)  == [rk |-> "tree", e |-> KI(n)]      \* a number is the tree Const
 NoneR    == [rk |-> "none"]
+ObjR(eq, e) == [rk |-> "obj", eq |-> eq, e |-> e]   \* a foreign object wrapping the tuple e
+ErrR(name) == [rk |-> "err", v |-> [k |-> "err", e |-> name, a |-> ""]]
 
 \* Python truthiness of a (mapped) expression, as primitives.py defines __bool__:
 \* a number is false iff it is zero; a one-child sum is its child, a product is false
@@ -69,7 +113,11 @@ RecKids(mk, e) ==
 SeqUnion(rs) == UNION { rs[i].s : i \in 1..Len(rs) }
 
 \* ---- the handler's own work, given the children's results ------------------
-Combine(mk, e, a, rs) ==
+\* the leaves of a probe result
+Leaves(rs) == LET RECURSIVE Go(_) Go(i) == IF i > Len(rs) THEN << >> ELSE rs[i].e.c \o Go(i + 1)
+              IN Go(1)
+\* the base class's handler for the node
+BaseCombine(mk, e, a, rs) ==
     CASE mk.m \in {"ident", "subst"} ->
             IF e.t = "Var" THEN
                 (IF mk.m = "ident" THEN TreeR(V(e.name \o "_r" \o Sfx(a)))
@@ -83,6 +131,9 @@ Combine(mk, e, a, rs) ==
             IF e.t = "Var" THEN SetR({ V(e.name \o "_r" \o Sfx(a)) })
             ELSE IF e.t = "Const" THEN SetR({})
             ELSE SetR(SeqUnion(rs))
+      \* the stock Collector: "by default, nothing is collected, all leaves return empty sets"
+      [] mk.m = "bcoll" ->
+            IF e.t \in {"Var", "Const"} THEN SetR({}) ELSE SetR(SeqUnion(rs))
       [] mk.m = "count" ->
             IF e.t = "Var" THEN IntR(1 + Len(a.pos) + Len(a.kw))
             ELSE IF e.t = "Const" THEN IntR(1)
@@ -97,6 +148,23 @@ Combine(mk, e, a, rs) ==
                  THEN SetR({ e })
             ELSE SetR(SeqUnion(rs))
       [] mk.m = "walk" -> NoneR
+      [] mk.m = "probe" ->
+            IF e.t = "Var" THEN ObjR(mk.eq, N("Tup", << V(e.name \o "_r" \o Sfx(a)) >>))
+            ELSE IF e.t = "Const" THEN ObjR(mk.eq, N("Tup", << e >>))
+            ELSE ObjR(mk.eq, N("Tup", Leaves(rs)))
+
+\* a marking override named body (a method name), whichever node it is applied to
+MarkCombine(mk, body, rs) ==
+    LET mark == V("ov_" \o body) IN
+    CASE mk.m \in {"ident", "subst"} -> TreeR(Call(mark, [i \in 1..Len(rs) |-> rs[i].e]))
+      [] mk.m \in {"coll", "bcoll"} -> SetR(SeqUnion(rs) \cup { mark })
+      [] mk.m = "count" -> IntR(100 + SeqSum([i \in 1..Len(rs) |-> rs[i].e.v.n]))
+      [] OTHER -> NoneR
+
+\* body = "" (the base's function) or the name of the own function that serves the node
+CombineBody(mk, e, a, rs, body) ==
+    IF body = "" THEN BaseCombine(mk, e, a, rs) ELSE MarkCombine(mk, body, rs)
+Combine(mk, e, a, rs) == CombineBody(mk, e, a, rs, OwnBody(mk, e))
 
 RECURSIVE Fresh(_, _, _)
 Fresh(mk, e, a) ==
@@ -113,5 +181,6 @@ ResCanon(r) ==
     CASE r.rk = "tree" -> [rk |-> "tree", e |-> Canon(r.e)]
       [] r.rk = "set"  -> [rk |-> "set", s |-> { Canon(x) : x \in r.s }]
       [] r.rk = "val"  -> [rk |-> "val", v |-> CanonVal(r.v)]
+      [] r.rk = "obj"  -> [rk |-> "obj", eq |-> r.eq, e |-> Canon(r.e)]
       [] OTHER -> r
 =============================================================================
